@@ -23,8 +23,10 @@ class BlockFile:
 
     def __init__(
         self,
-        data=BlockData(DefaultBlock()),
+        data=None,
     ) -> None:
+        if data is None:
+            data = BlockData(DefaultBlock(data=""))
         self.__data = data
         self.__storage = self.__class__.STORAGE
         self.__encoding = self.__class__.ENCODING
